@@ -64,6 +64,11 @@ def cases(tier):
     for cx in compositions(4):
         for cz in compositions(2):
             out.append(dict(kind="multi", cx=list(cx), cz=list(cz)))
+    # lazy inputs that carry lazy non-index coordinates chunked differently from the data (and a grid dataset whose
+    # own coordinates are lazy): accepted like in-memory inputs, nothing computed while building
+    comps = compositions(4)
+    for i, cx in enumerate(comps):
+        out.append(dict(kind="lazycoords", cx=list(cx), ccx=list(comps[(i + 3) % len(comps)]), ct=list(compositions(2)[i % 2]), cct=list(compositions(2)[(i + 1) % 2])))
     for k in range(1, 7):
         out.append(dict(kind="chunks", k=k))
     if tier == "thorough":
@@ -74,7 +79,7 @@ def cases(tier):
 
 
 def case(W, cfg):
-    return {"multi": case_multi, "simple": case_simple, "metric": case_metric, "faces": case_faces, "chunks": case_chunks, "3d": case_3d}[cfg["kind"]](W, cfg)
+    return {"multi": case_multi, "simple": case_simple, "metric": case_metric, "faces": case_faces, "chunks": case_chunks, "3d": case_3d, "lazycoords": case_lazycoords}[cfg["kind"]](W, cfg)
 
 
 class Counter:
@@ -163,6 +168,45 @@ def case_simple(W, cfg):
                 refuse = chunked_core and op != "cumsum" and (frm in ("inner", "outer") or to in ("inner", "outer"))
                 lab = "%s:%s:%s->%s" % (gname, op, frm, to)
                 compare(W, lab, lambda x, op=op: getattr(grid, op)(x, "X", to=to), (da,), (lz,), expect_refusal=refuse)
+
+
+def case_lazycoords(W, cfg):
+    import dask.array as dsa
+    import xgcm
+    N = 4
+    lonc = np.arange(2 * N).reshape(2, N) * 1.5
+    long_ = np.arange(2 * N).reshape(2, N) * 2.5 + 1.0
+    depth = np.arange(N) * 10.0
+
+    def dataset(lazy):
+        def mk(arr, chunks):
+            return dsa.from_array(arr, chunks=chunks) if lazy else arr
+        ds = xr.Dataset(coords={"xc": np.arange(N) + 0.5, "xg": np.arange(N) * 1.0, "t": [0, 1]})
+        return ds.assign_coords(lon_c=(("t", "xc"), mk(lonc, (tuple(cfg["cct"]), tuple(cfg["ccx"])))),
+                                lon_g=(("t", "xg"), mk(long_, (tuple(cfg["cct"]), tuple(cfg["ccx"])))),
+                                depth_c=(("xc",), mk(depth, (tuple(cfg["ccx"]),))))
+
+    a = W.data("a", (2, N))
+    chunked_core = len(cfg["cx"]) > 1
+    grids = {}
+    for lazy in (False, True):
+        ds = dataset(lazy)
+        with warnings.catch_warnings():
+            warnings.simplefilter("ignore")
+            grids[lazy] = (xgcm.Grid(ds, coords={"X": {"center": "xc", "left": "xg"}}, periodic=False, boundary="extend", autoparse_metadata=False), ds)
+    eager = xr.DataArray(a, dims=["t", "xc"], name="nm", coords={k: v for k, v in grids[False][1].coords.items() if set(v.dims) <= {"t", "xc"}})
+    lz = dasked(xr.DataArray(a, dims=["t", "xc"], name="nm"), {"t": cfg["ct"], "xc": cfg["cx"]})
+    lz = lz.assign_coords({k: v for k, v in grids[True][1].coords.items() if set(v.dims) <= {"t", "xc"}})
+    for keep in (False, True):
+        for op in ("diff", "interp", "min", "cumsum"):
+            lab = "lazycoords:%s:keep=%s" % (op, keep)
+            compare(W, lab, lambda x, g, op=op: getattr(g, op)(x, "X", to="left", keep_coords=keep), (eager, grids[False][0]), (lz, grids[True][0]))
+
+        def uf(x, g):
+            lazy = hasattr(x.data, "dask")
+            return g.apply_as_grid_ufunc(lambda y: y[..., 1:] - y[..., :-1], x, axis=[("X",)], signature="(X:center)->(X:left)", boundary_width={"X": (1, 0)},
+                                         keep_coords=keep, dask=("allowed" if lazy else "forbidden"), map_overlap=(lazy and chunked_core))
+        compare(W, "lazycoords:ufunc:keep=%s" % keep, uf, (eager, grids[False][0]), (lz, grids[True][0]))
 
 
 def case_multi(W, cfg):
